@@ -154,18 +154,25 @@ func (buf *bufferer) Destroy() {
 
 func (buf *bufferer) recoverExistingChunks() {
 	numChunks := 0
+	var skippedChunks []base.LogChunk
 
+	existingChunks := buf.chunkMan.ScanChunks()
 RECOVERY_LOOP:
-	for _, chunk := range buf.chunkMan.ScanChunks() {
+	for i, chunk := range existingChunks {
 		select {
 		case buf.inputChannel <- chunk:
 			buf.chunkMan.OnChunkInputRecovered(chunk)
 			buf.metrics.queuedChunksPersistent.Inc()
 			numChunks++
 		default:
-			buf.logger.Warnf("too many chunk files, skip id=%s", chunk.ID)
+			buf.logger.Warnf("too many chunk files, skip id=%s and %d more", chunk.ID, len(existingChunks)-i-1)
+			skippedChunks = existingChunks[i:]
 			break RECOVERY_LOOP
 		}
+	}
+	// the skipped files stay in the queue dir until the next start: they have to count for the space limit all the same
+	for _, chunk := range skippedChunks {
+		buf.chunkMan.OnChunkFileSkipped(chunk)
 	}
 	buf.logger.Infof("recovered chunks count=%d", numChunks)
 }
